@@ -3,7 +3,7 @@
     "the Recovery middleware answers the panic" (its [recovered_panic]), the translated handler panics. *)
 From Coq Require Import String ZifyN ZifyNat ZifyBool.
 From OtpV Require Import Prelude Sha GoSem Rfc4648 Errors Decoder Derive Otp Ocra Utils Random Suite Url Rest RestSem Src SrcRest
-     OtpProofs OcraProofs SrcLift SrcTop SrcEqDecode SrcEqHotp SrcEqTotp SrcEqOcraV SrcEqOcra SrcEqSuite SrcEqUtils SrcEqUrl.
+     OtpProofs OcraProofs UtilsProofs TotalProofs SrcLift SrcTop SrcEqDecode SrcEqHotp SrcEqTotp SrcEqOcraV SrcEqOcra SrcEqSuite SrcEqUtils SrcEqUrl.
 Open Scope N_scope.
 
 (** ---------- how a response of the model reads as the context a handler leaves ---------- *)
@@ -376,4 +376,296 @@ Proof.
     + rewrite src_GenerateHOTPURL_eq. destruct (generate_hotp_url _) as [u|e|]; cbn [lift_url rbind fst snd option_map is_some deref];
         try (rewrite src_writeError; cbn [rbind]); reflexivity.
     + rewrite src_writeError. reflexivity.
+Qed.
+
+(** ---------- OCRA: the decoders, the suite, the input ---------- *)
+Definition cfg_of_dto (d : t_suiteConfig) : suite_cfg :=
+  mkSuite [] (algorithm_from_str (suiteConfig_HashFunction d)) (suiteConfig_CodeDigits d) (suiteConfig_ChallengeFormat d)
+    (suiteConfig_IncludeCounter d) (suiteConfig_IncludeChallenge d) (suiteConfig_IncludePassword d) (suiteConfig_IncludeSession d)
+    (suiteConfig_IncludeTimestamp d) (suiteConfig_PasswordHash d) (suiteConfig_Timestep d).
+Definition hin_of_dto (d : t_ocraInput) : hex_input :=
+  mkHexIn (ocraInput_CounterHex d) (ocraInput_ChallengeHex d) (ocraInput_PasswordHex d) (ocraInput_SessionInfoHex d) (ocraInput_TimestampHex d).
+
+Lemma decode_suite_agree f : decode_suite f = option_map cfg_of_dto (decode_suiteConfig f).
+Proof.
+  unfold decode_suite, decode_suiteConfig.
+  destruct (dec_string (field "hash_function" f)), (dec_int64 (field "code_digits" f)), (dec_int64 (field "challenge_format" f)),
+    (dec_bool (field "include_counter" f)), (dec_bool (field "include_challenge" f)), (dec_bool (field "include_password" f)),
+    (dec_bool (field "include_session" f)), (dec_bool (field "include_timestamp" f)), (dec_int64 (field "password_hash" f)),
+    (dec_int64 (field "timestep" f)); reflexivity.
+Qed.
+Lemma decode_input_agree f : decode_input f = option_map hin_of_dto (decode_ocraInput f).
+Proof.
+  unfold decode_input, decode_ocraInput.
+  destruct (dec_string (field "counter_hex" f)), (dec_string (field "challenge_hex" f)), (dec_string (field "password_hex" f)),
+    (dec_string (field "session_info_hex" f)), (dec_string (field "timestamp_hex" f)); reflexivity.
+Qed.
+
+Definition common_of_gen (q : t_ocraGenerateReq) :=
+  (ocraGenerateReq_Secret q, @nil N, ocraGenerateReq_RawSuite q, option_map cfg_of_dto (ocraGenerateReq_Suite q), option_map hin_of_dto (ocraGenerateReq_Input q)).
+Definition common_of_val (q : t_ocraValidateReq) :=
+  (ocraValidateReq_Secret q, ocraValidateReq_Code q, ocraValidateReq_RawSuite q, option_map cfg_of_dto (ocraValidateReq_Suite q), option_map hin_of_dto (ocraValidateReq_Input q)).
+
+Lemma decode_ocra_gen_agree f : decode_ocra_common false f = option_map common_of_gen (decode_ocraGenerateReq f).
+Proof.
+  unfold decode_ocra_common, decode_ocraGenerateReq, dec_ptr.
+  destruct (dec_string (field "secret" f)) as [sec|]; [|reflexivity].
+  destruct (dec_string (field "raw_suite" f)) as [raw|]; [|reflexivity].
+  destruct (dec_obj (field "suite" f)) as [[sf|]|]; [| |reflexivity].
+  - rewrite decode_suite_agree. destruct (decode_suiteConfig sf) as [sd|]; cbn [option_map].
+    + destruct (dec_obj (field "input" f)) as [[inf|]|]; [| reflexivity | reflexivity].
+      rewrite decode_input_agree. destruct (decode_ocraInput inf); reflexivity.
+    + destruct (dec_obj (field "input" f)) as [[inf|]|]; reflexivity.
+  - destruct (dec_obj (field "input" f)) as [[inf|]|]; [| reflexivity | reflexivity].
+    rewrite decode_input_agree. destruct (decode_ocraInput inf); reflexivity.
+Qed.
+Lemma decode_ocra_val_agree f : decode_ocra_common true f = option_map common_of_val (decode_ocraValidateReq f).
+Proof.
+  unfold decode_ocra_common, decode_ocraValidateReq, dec_ptr.
+  destruct (dec_string (field "secret" f)) as [sec|]; [|reflexivity].
+  destruct (dec_string (field "code" f)) as [code|]; [|reflexivity].
+  destruct (dec_string (field "raw_suite" f)) as [raw|]; [|reflexivity].
+  destruct (dec_obj (field "suite" f)) as [[sf|]|]; [| |reflexivity].
+  - rewrite decode_suite_agree. destruct (decode_suiteConfig sf) as [sd|]; cbn [option_map].
+    + destruct (dec_obj (field "input" f)) as [[inf|]|]; [| reflexivity | reflexivity].
+      rewrite decode_input_agree. destruct (decode_ocraInput inf); reflexivity.
+    + destruct (dec_obj (field "input" f)) as [[inf|]|]; reflexivity.
+  - destruct (dec_obj (field "input" f)) as [[inf|]|]; [| reflexivity | reflexivity].
+    rewrite decode_input_agree. destruct (decode_ocraInput inf); reflexivity.
+Qed.
+
+Lemma jv_ok_obj fuel fs : jv_ok fuel (JvObj fs) -> fields_ok fuel fs.
+Proof.
+  induction fs as [|[k x] t IH]; intros H; [constructor|].
+  cbn in H. destruct H as [Hx Ht]. constructor; [exact Hx | apply IH; exact Ht].
+Qed.
+Lemma dec_obj_ok fuel name f inf : fields_ok fuel f -> dec_obj (field name f) = Some (Some inf) -> fields_ok fuel inf.
+Proof.
+  intros Hf Hd. destruct (field name f) as [v|] eqn:E; [|discriminate].
+  pose proof (field_ok fuel name f v Hf E) as Hv. destruct v; try discriminate. inversion Hd; subst. apply jv_ok_obj. exact Hv.
+Qed.
+
+Lemma hex_field_small tag s b : small s -> hex_field tag s = Ok b -> small b.
+Proof.
+  intros Hs H. unfold hex_field in H. destruct s as [|s0 s']; [inversion H; subst; exact Hs|].
+  destruct (hex_decode (s0 :: s')) as [x|] eqn:E; [|discriminate]. inversion H; subst.
+  apply UtilsProofs.hex_decode_length in E. unfold small, zlen in *. lia.
+Qed.
+Lemma hex_input_small c q p s t i : small c -> small q -> small p -> small s -> small t ->
+  hex_input_to_ocra c q p s t = Ok i -> small_input i.
+Proof.
+  intros Hc Hq Hp Hs Ht H. unfold hex_input_to_ocra in H.
+  destruct (hex_field T_hex_counter c) as [c'|e|] eqn:Ec; cbn [obind] in H; try discriminate.
+  destruct (hex_field T_hex_challenge q) as [q'|e|] eqn:Eq; cbn [obind] in H; try discriminate.
+  destruct (hex_field T_hex_password p) as [p'|e|] eqn:Ep; cbn [obind] in H; try discriminate.
+  destruct (hex_field T_hex_session s) as [s'|e|] eqn:Es; cbn [obind] in H; try discriminate.
+  destruct (hex_field T_hex_timestamp t) as [t'|e|] eqn:Et; cbn [obind] in H; try discriminate.
+  inversion H; subst. unfold small_input. cbn [oi_counter oi_challenge oi_password oi_session oi_timestamp].
+  exact (conj (hex_field_small _ _ _ Hc Ec) (conj (hex_field_small _ _ _ Hq Eq) (conj (hex_field_small _ _ _ Hp Ep)
+    (conj (hex_field_small _ _ _ Hs Es) (hex_field_small _ _ _ Ht Et))))).
+Qed.
+
+Lemma src_MustRawSuite_eq fuel raw : small raw ->
+  Src.MustRawSuite fuel raw = match new_raw_suite raw with Ok c => Val c | _ => Pnc end.
+Proof.
+  intros Hs. unfold Src.MustRawSuite. rewrite src_NewRawSuite_eq by exact Hs.
+  destruct (new_raw_suite raw); reflexivity.
+Qed.
+
+(** ---------- /ocra/generate ---------- *)
+Lemma gen_sizes fuel f q : (1 <= fuel)%nat -> fields_ok fuel f -> decode_ocraGenerateReq f = Some q ->
+  ((length (ocraGenerateReq_Secret q) < fuel)%nat /\ small (ocraGenerateReq_Secret q)) /\ small (ocraGenerateReq_RawSuite q) /\
+  (forall d, ocraGenerateReq_Input q = Some d ->
+     small (ocraInput_CounterHex d) /\ small (ocraInput_ChallengeHex d) /\ small (ocraInput_PasswordHex d) /\
+     small (ocraInput_SessionInfoHex d) /\ small (ocraInput_TimestampHex d)).
+Proof.
+  intros H1 Hf Hd. unfold decode_ocraGenerateReq, dec_ptr in Hd.
+  destruct (dec_string (field "secret" f)) as [sec|] eqn:Es; [|discriminate].
+  destruct (dec_string (field "raw_suite" f)) as [raw|] eqn:Er; [|discriminate].
+  destruct (dec_obj (field "suite" f)) as [[sf|]|]; try discriminate;
+    [destruct (decode_suiteConfig sf); try discriminate|];
+    (destruct (dec_obj (field "input" f)) as [[inf|]|] eqn:Ei; try discriminate;
+     [destruct (decode_ocraInput inf) as [d0|] eqn:Ed; try discriminate|]);
+    inversion Hd; subst; cbn [ocraGenerateReq_Secret ocraGenerateReq_RawSuite ocraGenerateReq_Input];
+    (split; [exact (dec_string_ok fuel _ f sec H1 Hf Es)|]); (split; [exact (proj2 (dec_string_ok fuel _ f raw H1 Hf Er))|]);
+    intros d Hdd; try discriminate; inversion Hdd; subst;
+    pose proof (dec_obj_ok fuel _ f inf Hf Ei) as Hinf; unfold decode_ocraInput in Ed;
+    destruct (dec_string (field "counter_hex" inf)) as [a0|] eqn:E0; try discriminate;
+    destruct (dec_string (field "challenge_hex" inf)) as [a1|] eqn:E1; try discriminate;
+    destruct (dec_string (field "password_hex" inf)) as [a2|] eqn:E2; try discriminate;
+    destruct (dec_string (field "session_info_hex" inf)) as [a3|] eqn:E3; try discriminate;
+    destruct (dec_string (field "timestamp_hex" inf)) as [a4|] eqn:E4; try discriminate;
+    inversion Ed; subst; cbn [ocraInput_CounterHex ocraInput_ChallengeHex ocraInput_PasswordHex ocraInput_SessionInfoHex ocraInput_TimestampHex];
+    exact (conj (proj2 (dec_string_ok fuel _ inf _ H1 Hinf E0)) (conj (proj2 (dec_string_ok fuel _ inf _ H1 Hinf E1))
+      (conj (proj2 (dec_string_ok fuel _ inf _ H1 Hinf E2)) (conj (proj2 (dec_string_ok fuel _ inf _ H1 Hinf E3))
+      (proj2 (dec_string_ok fuel _ inf _ H1 Hinf E4)))))).
+Qed.
+
+Ltac ocra_gen_tail Hi0 Hi1 Hi2 Hi3 Hi4 :=
+  rewrite src_HexInputToOCRA_eq;
+  cbn [hin_of_dto hi_c hi_q hi_p hi_s hi_t];
+  match goal with |- context [hex_input_to_ocra ?a ?b ?c0 ?d ?e] =>
+    let Hnp := fresh "Hnp" in let Ehx := fresh "Ehx" in
+    pose proof (hex_input_to_ocra_total a b c0 d e) as Hnp;
+    destruct (hex_input_to_ocra a b c0 d e) as [inp|e0|] eqn:Ehx; [| |exfalso; apply Hnp; reflexivity];
+    cbn [lift_in rbind fst snd option_map is_some];
+    [ pose proof (hex_input_small _ _ _ _ _ _ Hi0 Hi1 Hi2 Hi3 Hi4 Ehx);
+      rewrite src_GenerateOCRA_eq by (assumption || lia);
+      match goal with |- context [generate_ocra ?s ?cf ?i] => destruct (generate_ocra s cf i) as [code|e1|] end;
+      cbn [lift_oc rbind fst snd option_map is_some deref]; try (rewrite src_writeError; cbn [rbind]); try reflexivity;
+      unfold Src.SuiteConfig_String; cbn [rbind];
+      match goal with |- context [sc_raw ?cf] => destruct (sc_raw cf) end; reflexivity
+    | rewrite src_writeError; reflexivity ]
+  end.
+
+Lemma src_ocraGeneration_eq fuel junk c : rest_runs fuel c ->
+  SrcRest.ocraGeneration fuel junk c = lift_rest c (Rest.ocra_generation (cx_req c)).
+Proof.
+  intros Hr. unfold SrcRest.ocraGeneration, Rest.ocra_generation. rest_open c Hr.
+  unfold unmarshal_ocraGenerateReq. destruct (r_body (cx_req c)) as [| |f] eqn:Eb; cbn [body_fields];
+    try (cbn [is_some]; rewrite src_writeError; cbn [rbind]; rewrite lift_decode_failed; reflexivity).
+  rewrite decode_ocra_gen_agree. destruct (decode_ocraGenerateReq f) as [q|] eqn:Eq; cbn [option_map];
+    [| cbn [is_some]; rewrite src_writeError; cbn [rbind]; rewrite lift_decode_failed; reflexivity ].
+  cbn [is_some]. cbn [body_ok] in Hbody.
+  pose proof (gen_sizes fuel f q ltac:(lia) Hbody Eq) as [[Hs1 Hs2] [Hraw Hin]].
+  destruct q as [sec raw sdto idto].
+  cbn [ocraGenerateReq_Secret ocraGenerateReq_RawSuite ocraGenerateReq_Input] in Hs1, Hs2, Hraw, Hin.
+  unfold common_of_gen, ocraGenerateReq_validate, ocra_prepare.
+  cbn [ocraGenerateReq_Secret ocraGenerateReq_RawSuite ocraGenerateReq_Suite ocraGenerateReq_Input andb].
+  rewrite !beqb_blank.
+  destruct (blank sec); cbn [rbind is_some deref]; [rewrite src_writeError; cbn [rbind]; rewrite lift_err400s; reflexivity|].
+  rewrite src_IsKnownSuite_eq.
+  assert (Hcfg : forall sd, Src.AlgorithmFromStr (suiteConfig_HashFunction sd) = Val (algorithm_from_str (suiteConfig_HashFunction sd)))
+    by (intros; apply src_AlgorithmFromStr_eq).
+  destruct sdto as [sd|]; destruct (blank raw) eqn:Ebr; cbn [is_some negb andb option_map rbind deref];
+    try (rewrite src_writeError; cbn [rbind]; rewrite lift_err400s; reflexivity).
+  all: try (destruct (is_known_suite raw); cbn [negb rbind is_some deref];
+            [| rewrite src_writeError; cbn [rbind]; rewrite lift_err400; reflexivity ]).
+  all: destruct idto as [idt|]; cbn [is_some negb option_map rbind deref];
+    [| rewrite src_writeError; cbn [rbind]; rewrite lift_err400s; reflexivity ].
+  all: destruct (Hin idt eq_refl) as (Hi0 & Hi1 & Hi2 & Hi3 & Hi4).
+  1,2: rewrite Hcfg; cbn [rbind]; rewrite src_NewSuite_eq; unfold cfg_of_dto;
+    match goal with |- context [new_suite ?x] =>
+      pose proof (new_suite_total x) as Hnt; destruct (new_suite x) as [c0|e|]; [| |exfalso; apply Hnt; reflexivity] end;
+    cbn [lift_suite_nil rbind fst snd option_map is_some];
+    [| rewrite src_writeError; reflexivity ];
+    rewrite beqb_nil;
+    (destruct raw as [|r0 raw']; cbn [negb];
+     [ ocra_gen_tail Hi0 Hi1 Hi2 Hi3 Hi4
+     | rewrite src_MustRawSuite_eq by exact Hraw;
+       destruct (new_raw_suite (r0 :: raw')) as [c1|e|]; cbn [rbind]; [ocra_gen_tail Hi0 Hi1 Hi2 Hi3 Hi4 | reflexivity | reflexivity] ]).
+  rewrite beqb_nil. destruct raw as [|r0 raw']; [vm_compute in Ebr; discriminate|]. cbn [negb].
+  rewrite src_MustRawSuite_eq by exact Hraw.
+  destruct (new_raw_suite (r0 :: raw')) as [c1|e|]; cbn [rbind]; [ocra_gen_tail Hi0 Hi1 Hi2 Hi3 Hi4 | reflexivity | reflexivity].
+Qed.
+
+(** ---------- /ocra/validate ---------- *)
+Lemma val_sizes fuel f q : (1 <= fuel)%nat -> fields_ok fuel f -> decode_ocraValidateReq f = Some q ->
+  ((length (ocraValidateReq_Secret q) < fuel)%nat /\ small (ocraValidateReq_Secret q)) /\ small (ocraValidateReq_RawSuite q) /\
+  (forall d, ocraValidateReq_Input q = Some d ->
+     small (ocraInput_CounterHex d) /\ small (ocraInput_ChallengeHex d) /\ small (ocraInput_PasswordHex d) /\
+     small (ocraInput_SessionInfoHex d) /\ small (ocraInput_TimestampHex d)).
+Proof.
+  intros H1 Hf Hd. unfold decode_ocraValidateReq, dec_ptr in Hd.
+  destruct (dec_string (field "secret" f)) as [sec|] eqn:Es; [|discriminate].
+  destruct (dec_string (field "code" f)) as [code|] eqn:Ec; [|discriminate].
+  destruct (dec_string (field "raw_suite" f)) as [raw|] eqn:Er; [|discriminate].
+  destruct (dec_obj (field "suite" f)) as [[sf|]|]; try discriminate;
+    [destruct (decode_suiteConfig sf); try discriminate|];
+    (destruct (dec_obj (field "input" f)) as [[inf|]|] eqn:Ei; try discriminate;
+     [destruct (decode_ocraInput inf) as [d0|] eqn:Ed; try discriminate|]);
+    inversion Hd; subst; cbn [ocraValidateReq_Secret ocraValidateReq_RawSuite ocraValidateReq_Input];
+    (split; [exact (dec_string_ok fuel _ f sec H1 Hf Es)|]); (split; [exact (proj2 (dec_string_ok fuel _ f raw H1 Hf Er))|]);
+    intros d Hdd; try discriminate; inversion Hdd; subst;
+    pose proof (dec_obj_ok fuel _ f inf Hf Ei) as Hinf; unfold decode_ocraInput in Ed;
+    destruct (dec_string (field "counter_hex" inf)) as [a0|] eqn:E0; try discriminate;
+    destruct (dec_string (field "challenge_hex" inf)) as [a1|] eqn:E1; try discriminate;
+    destruct (dec_string (field "password_hex" inf)) as [a2|] eqn:E2; try discriminate;
+    destruct (dec_string (field "session_info_hex" inf)) as [a3|] eqn:E3; try discriminate;
+    destruct (dec_string (field "timestamp_hex" inf)) as [a4|] eqn:E4; try discriminate;
+    inversion Ed; subst; cbn [ocraInput_CounterHex ocraInput_ChallengeHex ocraInput_PasswordHex ocraInput_SessionInfoHex ocraInput_TimestampHex];
+    exact (conj (proj2 (dec_string_ok fuel _ inf _ H1 Hinf E0)) (conj (proj2 (dec_string_ok fuel _ inf _ H1 Hinf E1))
+      (conj (proj2 (dec_string_ok fuel _ inf _ H1 Hinf E2)) (conj (proj2 (dec_string_ok fuel _ inf _ H1 Hinf E3))
+      (proj2 (dec_string_ok fuel _ inf _ H1 Hinf E4)))))).
+Qed.
+
+Ltac ocra_val_tail Hi0 Hi1 Hi2 Hi3 Hi4 :=
+  rewrite src_HexInputToOCRA_eq;
+  cbn [hin_of_dto hi_c hi_q hi_p hi_s hi_t];
+  match goal with |- context [hex_input_to_ocra ?a ?b ?c0 ?d ?e] =>
+    let Hnp := fresh "Hnp" in let Ehx := fresh "Ehx" in
+    pose proof (hex_input_to_ocra_total a b c0 d e) as Hnp;
+    destruct (hex_input_to_ocra a b c0 d e) as [inp|e0|] eqn:Ehx; [| |exfalso; apply Hnp; reflexivity];
+    cbn [lift_in rbind fst snd option_map is_some];
+    [ pose proof (hex_input_small _ _ _ _ _ _ Hi0 Hi1 Hi2 Hi3 Hi4 Ehx);
+      rewrite src_ValidateOCRA_eq by (assumption || lia);
+      match goal with |- context [validate_ocra ?s ?cd ?cf ?i] =>
+        let b := fresh "b" in let e := fresh "e" in let Hok := fresh "Hok" in
+        destruct (validate_ocra_ok s cd cf i) as [b [e Hok]]; unfold lift_v, verdict_bool; rewrite Hok end;
+      reflexivity
+    | rewrite src_writeError; reflexivity ]
+  end.
+
+Lemma src_ocraValidation_eq fuel junk c : rest_runs fuel c ->
+  SrcRest.ocraValidation fuel junk c = lift_rest c (Rest.ocra_validation (cx_req c)).
+Proof.
+  intros Hr. unfold SrcRest.ocraValidation, Rest.ocra_validation. rest_open c Hr.
+  unfold unmarshal_ocraValidateReq. destruct (r_body (cx_req c)) as [| |f] eqn:Eb; cbn [body_fields];
+    try (cbn [is_some]; rewrite src_writeError; cbn [rbind]; rewrite lift_decode_failed; reflexivity).
+  rewrite decode_ocra_val_agree. destruct (decode_ocraValidateReq f) as [q|] eqn:Eq; cbn [option_map];
+    [| cbn [is_some]; rewrite src_writeError; cbn [rbind]; rewrite lift_decode_failed; reflexivity ].
+  cbn [is_some]. cbn [body_ok] in Hbody.
+  pose proof (val_sizes fuel f q ltac:(lia) Hbody Eq) as [[Hs1 Hs2] [Hraw Hin]].
+  destruct q as [sec code raw sdto idto].
+  cbn [ocraValidateReq_Secret ocraValidateReq_RawSuite ocraValidateReq_Input] in Hs1, Hs2, Hraw, Hin.
+  unfold common_of_val, ocraValidateReq_validate, ocra_prepare.
+  cbn [ocraValidateReq_Secret ocraValidateReq_Code ocraValidateReq_RawSuite ocraValidateReq_Suite ocraValidateReq_Input andb].
+  rewrite !beqb_blank.
+  destruct (blank sec); cbn [rbind is_some deref]; [rewrite src_writeError; cbn [rbind]; rewrite lift_err400s; reflexivity|].
+  destruct (blank code); cbn [rbind is_some deref]; [rewrite src_writeError; cbn [rbind]; rewrite lift_err400s; reflexivity|].
+  rewrite src_IsKnownSuite_eq.
+  assert (Hcfg : forall sd, Src.AlgorithmFromStr (suiteConfig_HashFunction sd) = Val (algorithm_from_str (suiteConfig_HashFunction sd)))
+    by (intros; apply src_AlgorithmFromStr_eq).
+  destruct sdto as [sd|]; destruct (blank raw) eqn:Ebr; cbn [is_some negb andb option_map rbind deref];
+    try (rewrite src_writeError; cbn [rbind]; rewrite lift_err400s; reflexivity).
+  all: try (destruct (is_known_suite raw); cbn [negb rbind is_some deref];
+            [| rewrite src_writeError; cbn [rbind]; rewrite lift_err400; reflexivity ]).
+  all: destruct idto as [idt|]; cbn [is_some negb option_map rbind deref];
+    [| rewrite src_writeError; cbn [rbind]; rewrite lift_err400s; reflexivity ].
+  all: destruct (Hin idt eq_refl) as (Hi0 & Hi1 & Hi2 & Hi3 & Hi4).
+  1,2: rewrite Hcfg; cbn [rbind]; rewrite src_NewSuite_eq; unfold cfg_of_dto;
+    match goal with |- context [new_suite ?x] =>
+      pose proof (new_suite_total x) as Hnt; destruct (new_suite x) as [c0|e|]; [| |exfalso; apply Hnt; reflexivity] end;
+    cbn [lift_suite_nil rbind fst snd option_map is_some];
+    [| rewrite src_writeError; reflexivity ];
+    rewrite beqb_nil;
+    (destruct raw as [|r0 raw']; cbn [negb];
+     [ ocra_val_tail Hi0 Hi1 Hi2 Hi3 Hi4
+     | rewrite src_MustRawSuite_eq by exact Hraw;
+       destruct (new_raw_suite (r0 :: raw')) as [c1|e|]; cbn [rbind]; [ocra_val_tail Hi0 Hi1 Hi2 Hi3 Hi4 | reflexivity | reflexivity] ]).
+  rewrite beqb_nil. destruct raw as [|r0 raw']; [vm_compute in Ebr; discriminate|]. cbn [negb].
+  rewrite src_MustRawSuite_eq by exact Hraw.
+  destruct (new_raw_suite (r0 :: raw')) as [c1|e|]; cbn [rbind]; [ocra_val_tail Hi0 Hi1 Hi2 Hi3 Hi4 | reflexivity | reflexivity].
+Qed.
+
+(** ---------- the router ---------- *)
+Lemma src_routers_eq fuel jr j4 j6 c : rest_runs fuel c -> length j4 = 8%nat ->
+  beqb (r_path (cx_req c)) (s2b "/otp/secret") = false -> beqb (r_path (cx_req c)) (s2b "/") = false ->
+  SrcRest.routers fuel jr j4 j6 c = lift_rest c (Rest.handle (cx_now c) (cx_req c)).
+Proof.
+  intros Hr Hj Hsec Hhome. unfold SrcRest.routers, Rest.handle, ctx_path. cbv zeta.
+  unfold Suite.beq. change Otp.bytes_eqb with GoSem.beqb.
+  set (p := r_path (cx_req c)) in *.
+  destruct (beqb p (s2b "/docs")); [reflexivity|].
+  destruct (is_prefix (s2b "/docs/") p); [reflexivity|].
+  destruct (beqb p (s2b "/totp/generate")); [rewrite src_totpGeneration_eq by assumption; destruct (lift_rest c _); reflexivity|].
+  destruct (beqb p (s2b "/totp/validate")); [rewrite src_totpValidation_eq by assumption; destruct (lift_rest c _); reflexivity|].
+  destruct (beqb p (s2b "/hotp/generate")); [rewrite src_hotpGeneration_eq by assumption; destruct (lift_rest c _); reflexivity|].
+  destruct (beqb p (s2b "/hotp/validate")); [rewrite src_hotpValidation_eq by assumption; destruct (lift_rest c _); reflexivity|].
+  destruct (beqb p (s2b "/ocra/generate")); [rewrite src_ocraGeneration_eq by assumption; destruct (lift_rest c _); reflexivity|].
+  destruct (beqb p (s2b "/ocra/validate")); [rewrite src_ocraValidation_eq by assumption; destruct (lift_rest c _); reflexivity|].
+  destruct (beqb p (s2b "/ocra/suites")); [rewrite src_listOCRASuites_eq; destruct (lift_rest c _); reflexivity|].
+  destruct (beqb p (s2b "/ocra/suite")); [rewrite (src_ocraSuiteConfig_eq fuel) by assumption; destruct (lift_rest c _); reflexivity|].
+  destruct (beqb p (s2b "/otp/url")); [rewrite src_otpURLGeneration_eq by assumption; destruct (lift_rest c _); reflexivity|].
+  rewrite Hsec, Hhome. reflexivity.
 Qed.
